@@ -82,9 +82,14 @@ PROPS["C12"] = dict(
                "line_intersection_t are regenerated from line.rs on every run (tools/rs2coq.py, Gen/Functions.v), proved "
                "equal to the model, and soundness / completeness are restated on the generated function; and by an EXHAUSTIVE comparison "
                "on all ordered pairs of lattice segments (4x4 lattice quick, 5x5 thorough) + random lattices. "
-               "Curve queries (line x quadratic/cubic, cubic x cubic) are not modelled: every returned parameter is "
-               "checked to denote a common point and constructed transversal crossings must be reported "
-               "(validation, not proof).",
+               "Line x quadratic IS modelled (Model/QuadLine.v, line_intersections_t statement by statement with the float "
+               "special cases written out and the square root as an oracle assumed right only at the discriminant): every "
+               "reported parameter is in [0,1] and on the line, every crossing in [0,1] is reported unless the projection "
+               "is constant, the result is increasing; the pinned linear branch is refuted by a witness (defect repaired "
+               "in /repo); tied to the code on lattice quadratics x axis-parallel lines (3000 / 24000 per run, half with a "
+               "vanishing quadratic term). The other curve queries (line x cubic, cubic x cubic) are not modelled: every "
+               "returned parameter is checked to denote a common point and constructed transversal crossings must be "
+               "reported (validation, not proof).",
     level_note="Trusted: Coq kernel; f64 division is correctly rounded (the run compares the implementation's t with the "
                "model's rational within 2^-53 relative); curve-curve / curve-line soundness is validated per run only.",
     technique="Coq proof (Cramer's rule over Q, lra/field) + exhaustive lattice correspondence via vm_compute",
